@@ -211,8 +211,13 @@ func NdJSON(raw []byte, limit uint32) bool {
 	var l []byte
 	for len(raw) != 0 {
 		l, raw = scanLine(raw)
-		_, inspected, firstToken, _ := json.Parse(json.QueryNone, l)
+		parsed, inspected, firstToken, _ := json.Parse(json.QueryNone, l)
 		if len(l) != inspected {
+			return false
+		}
+		// The incomplete last line was dropped, so except for blank lines,
+		// each remaining line must hold a complete JSON value.
+		if firstToken != json.TokInvalid && parsed != len(l) {
 			return false
 		}
 		if firstToken == json.TokArray || firstToken == json.TokObject {
